@@ -48,7 +48,13 @@ func runC15(raw json.RawMessage, w *Writer) {
 			_, _ = used.Unmarshal(bytesOf(g))
 		}
 		for i, p := range a {
-			if i < 30 && c.Mask&(1<<uint(i)) != 0 {
+			keep := i < 30 && c.Mask >= 0 && c.Mask&(1<<uint(i)) != 0
+			if c.Mask == -1 { // everything but the last packet
+				keep = i < len(a)-1
+			} else if c.Mask == -2 { // everything but the first packet
+				keep = i > 0
+			}
+			if keep {
 				_, _ = used.Unmarshal(cloneBytes(p))
 				delivered++
 			}
